@@ -42,8 +42,9 @@ MANIFEST = dict(
           "lines only if they are a behaviour of GrpcWire. Right level: the statement quantifies over all entries and configurations and over "
           "interleaved good/bad neighbours; the acceptance test fires one payload and compares counters."),
     note=("Values are compared as (prefix, token) pairs; only non-default values (proto3 cannot tell a default from an absent field). Received metadata "
-          "is checked to contain the entry's metadata (transport entries removed). 'Within the configured timeout' is not decided (timeout set to 120 s "
-          "so that load cannot turn into a deadline). A scenario stops at its first failed step, as the gun does. Trusted: renderers/projections in "
+          "is checked to contain the entry's metadata (transport entries removed). 'Within the configured timeout' is decided as 'per call' by one "
+          "run with a 1 s timeout and 1.2 s of think time between three fast calls (exit 2 if the machine was too slow to judge); all other runs use 120 s. "
+          "reflect_port runs serve reflection from a second server that also implements the service: calls must arrive at the target only. A scenario stops at its first failed step, as the gun does. Trusted: renderers/projections in "
           "the harness, TLC."),
 )
 
@@ -133,17 +134,41 @@ def describe(run_rows, i, inv):
     row = run_rows[min(i, len(run_rows) - 1)]
     ev = row.get("ev")
     what = ev
-    if ev == "Recv":
+    if ev == "Recv" and row.get("srv") not in (None, "target"):
+        what = "Recv:at-%s-endpoint" % row.get("srv")
+    elif ev == "Recv":
         what = "Recv:%s" % row.get("method", "").split(".")[-1]
     elif ev == "Sample":
-        what = "Sample:code=%s" % ("200" if row.get("code") == 200 else "not200")
+        what = "Sample:code=%s" % ("200" if row.get("code") == 200 else ("504" if row.get("code") == 504 else "not200"))
     elif ev == "RunEnd":
         what = "RunEnd:%s" % ("err" if row.get("err") else "incomplete")
     elif ev == "Crash":
         what = "Crash:%s" % row.get("what")
-    sig = "kind=%s shared=%s inst=%s at=%s%s" % (head.get("kind"), head.get("shared"), head.get("inst"), what,
+    sig = "kind=%s shared=%s%s%s inst=%s at=%s%s" % (head.get("kind"), head.get("shared"), " refl=separate" if head.get("refl") else "",
+                                                    " timeout=%sms" % head["timeout"] if head.get("timeout") else "", head.get("inst"), what,
                                                 (" inv=" + inv) if inv else "")
     return sig, row
+
+
+def slow_machine_guard(run, head):
+    """A run with a small per-call timeout T is only meaningful if the machine let a loopback call finish well within T.
+    Think time is a LOWER bound; if a whole shot took longer than its think time + T/2, single calls may have been slow
+    for reasons outside pandora: machinery failure (exit 2), never a verdict."""
+    T = head.get("timeout") or 0
+    if not T:
+        return
+    think = sum(head.get("sleeps") or [])
+    begin = {}
+    for r_ in run:
+        if r_["ev"] == "ShootBegin":
+            begin[r_["gun"]] = r_.get("ms", 0)
+        elif r_["ev"] == "ShootEnd" and r_["gun"] in begin:
+            took = r_.get("ms", 0) - begin.pop(r_["gun"])
+            if took > think + T // 2:
+                raise vlib.MachineryError("run %s (timeout %d ms): a shot with %d ms of think time took %d ms -- the machine is too slow "
+                                          "to judge a %d ms per-call timeout" % (head.get("run"), T, think, took, T))
+    if begin:   # a shot that never returned
+        raise vlib.MachineryError("run %s (timeout %d ms): a shot did not return" % (head.get("run"), T))
 
 
 def validate(v, rows, d, doc, groups=3):
@@ -189,6 +214,7 @@ def validate_group(v, runs, d, doc, tag):
                 i = ln - n - 1
                 sig, row = describe(run, i, inv)
                 head = run[0]
+                slow_machine_guard(run, head)
                 ctx = [brief(x) for x in run[max(1, i - 12):i + 1]]
                 v.violation(sig, "run %s (%s, shared-client=%s, %s instances): line %s of the recorded trace is not a step "
                             "of GrpcWire%s: %s" % (head.get("run"), head.get("kind"), head.get("shared"), head.get("inst"),
@@ -269,10 +295,40 @@ C20_CORRUPTIONS = [
     ("a bad entry's sample reported as 200",
      lambda run: run[0].get("kind") == "json",
      lambda rows: _alter_first(rows, lambda r_: r_["ev"] == "Sample" and r_["code"] != 200, lambda r_: r_.__setitem__("code", 200))),
+    ("a call received by the reflection endpoint",
+     lambda run: run[0].get("refl"),
+     lambda rows: _alter_first(rows, lambda r_: r_["ev"] == "Recv", lambda r_: r_.__setitem__("srv", "reflect"))),
+    ("a good step of the think-time scenario fails with 504 without being sent",
+     lambda run: run[0].get("timeout"),
+     lambda rows: _timeout_step(rows)),
+    ("an undecodable line is sent",
+     lambda run: run[0].get("kind") == "json",
+     lambda rows: _send_invalid(rows)),
     ("one entry never shot",
      lambda run: run[0].get("kind") == "json" and run[0].get("inst") == 1,
      lambda rows: _drop_entry(rows)),
 ]
+
+
+def _timeout_step(rows):
+    # the LAST received call of the run disappears and its sample turns into a client-side 504
+    for i in range(len(rows) - 1, -1, -1):
+        if rows[i]["ev"] == "Recv":
+            j = next(k for k in range(i, len(rows)) if rows[k]["ev"] == "Sample")
+            rows[j]["code"] = 504
+            del rows[i]
+            return True
+    return False
+
+
+def _send_invalid(rows):
+    # an undecodable line's Shoot is followed by a received call (a copy of the first one in the run)
+    first = next((r_ for r_ in rows if r_["ev"] == "Recv"), None)
+    for i, r_ in enumerate(rows):
+        if r_["ev"] == "ShootBegin" and r_.get("ammo") == "!invalid" and first is not None:
+            rows.insert(i + 1, dict(first))
+            return True
+    return False
 
 
 def _drop_entry(rows):
@@ -310,16 +366,18 @@ def run(tier, v):
     jobs = [("GrpcWireMC", "GrpcWire_exh3.cfg" if thorough else "GrpcWire_exh.cfg", dict(kw, workers=8, heap="8g")),
             ("GrpcWireMC", "GrpcWire_neg_inplace.cfg", kw), ("GrpcWireMC", "GrpcWire_neg_abortonbad.cfg", kw),
             ("GrpcWireMC", "GrpcWire_neg_dropmd.cfg", kw)]
+    more_neg = [("GrpcWireMC", "GrpcWire_neg_shareddialsreflect.cfg", kw), ("GrpcWireMC", "GrpcWire_neg_scenariodeadline.cfg", kw)]
+    jobs += more_neg
     t0 = time.time()
     if thorough:   # files of 3 entries (2 instances) next to 3 instances (files of 2)
         jobs.append(("GrpcWireMC", "GrpcWire_exh_file3.cfg", dict(kw, workers=8, heap="8g")))
     res = tlc_parallel(jobs)
     vlib.log("design TLC + negative controls: %.1fs (%d states)" % (time.time() - t0, res[0].distinct))
     vlib.tlc_must_pass(res[0], jobs[0][1])
-    for j, r in zip(jobs[1:4], res[1:4]):
+    for j, r in zip(jobs[1:6], res[1:6]):
         vlib.tlc_must_fail(r, j[1])
     states, trans = res[0].distinct, res[0].generated
-    for j, r in zip(jobs[4:], res[4:]):
+    for j, r in zip(jobs[6:], res[6:]):
         vlib.tlc_must_pass(r, j[1])
         states += r.distinct
         trans += r.generated
@@ -351,13 +409,17 @@ def run(tier, v):
         "abstract_entries": len(ents), "bad_entries": sum(1 for e in ents if e["bad"] != "none"),
         "runs": len(doc["runs"]), "runs_rejected": rejected,
         "calls_received": recvs, "trace_lines": len(rows), "trace_spec_states": tstates,
-        "negative_controls": ["inplace", "abortonbad", "dropmd"], "corrupted_traces_rejected": corrupted, "design_configs": [jobs[0][1]] + [j[1] for j in jobs[4:]],
+        "negative_controls": ["inplace", "abortonbad", "dropmd", "shareddialsreflect", "scenariodeadline"], "corrupted_traces_rejected": corrupted, "design_configs": [jobs[0][1]] + [j[1] for j in jobs[6:]],
     }
     return "model_checking", cov, [
         "exhaustive TLC bounds: files of <= 2 entries over 4 grpc/json and 3 scenario classes, <= %d instances%s" % (
             3 if thorough else 2, "; files of <= 3 entries with <= 2 instances" if thorough else ""),
         "values are compared as (constant prefix, token) pairs split at '~' by the recording target; non-default values only "
         "(proto3 cannot distinguish a default from an absent field)",
+        "'within the configured timeout' is decided as 'per call': one run with timeout 1 s and 0.6 s + 0.6 s of think time between three fast "
+        "calls (every step must reach the target and be 200); if a shot of that run took longer than think time + T/2 the machine is "
+        "declared too slow (exit 2). Real-time length of the timeout itself is not measured",
+        "reflect_port runs: reflection is served by a second server that also implements the service; a call it receives has no action",
         "a scenario stops at its first failed step (what the gun does; the statement only asks that OTHER entries are undisturbed)",
         "metadata: received ⊇ written (transport entries :authority, content-type, user-agent, grpc-* removed by the target)",
         "trusted: renderers/projections in harness/cmd/vdrive/grpcwire.go and harness/internal/grpctarget"]
